@@ -197,3 +197,11 @@ package cache
 //@ func (c cacheNode) asyncRetryDelCache closure 0
 //@   property C06
 //@   call Del#0: assert sameSlice(arg_keys, keys) && arg_recv == c.rds
+
+// C15 a cache node's identity on the ring is the address of its store: cacheNode VALUES (which is what cache.New puts on the
+// ring) are fmt.Stringers - the method has a value receiver - so lang.Repr never falls back to printing pointer fields
+//@ func (c cacheNode) String
+//@   property C15
+//@   requires c.rds != nil
+//@   ensures result == c.rds.Addr
+//@   modifies nothing
